@@ -5,6 +5,12 @@ HERE = os.path.dirname(os.path.dirname(os.path.abspath(__file__)))
 PY = "/venv/bin/python -B"
 CHECKS = {
  # id: (category, technique, level text, note, design ref)
+ "C06": ("exploration", "runtime round-trip monitor over a generated type grammar (stream position + value equality oracles)",
+         "decode(encode(v)) == v, exact stream consumption with trailing junk, and dict-vs-sequence agreement are observed for every value of the 8/16-bit types, boundary/random values of wider types, strings at all prefix limits and thousands of generated nested Array/Struct/StructTag types plus the identity, date, STRINGN and STRINGI constructors.",
+         "Domains as documented (docs/getting_started.rst); equality at stored precision; type grammar bounded to depth 3 and 4 KiB.", "4 C06"),
+ "C08": ("exploration", "runtime fault-injection on codec inputs with exception-type oracle and sys.monitoring step budget",
+         "Out-of-domain values of every listed class and every truncation point / random bytes are fed to every type; the oracle accepts only DataError (BufferEmptyError only when the buffer ends where a value starts, decided by an independent reference parse), flags silent results, foreign exceptions and calls exceeding a 200k line-event budget, and checks T[None] over whole elements.",
+         "Reference parser decides 'too short'; documented leniencies (BOOL truthiness, n_bytes slicing) are don't-cares.", "4 C08"),
  "C07": ("exploration", "differential runtime monitor: library codecs vs independent reference codec",
          "Every exported elementary/string/bit-string type is compared with an independent reference codec: exhaustively for all 1- and 2-byte patterns and values, on boundary/walking-bit/special-float/random patterns for wider types, across string prefix widths and FixedSizeString capacities 1..500, and on thousands of generated Array/Struct/StructTag layouts; the type-code table is checked for code and width.",
          "Trusts vlib/refcodec.py (self-tested on the documentation's vectors) and Python's struct/int.to_bytes.", "4 C07"),
